@@ -58,6 +58,8 @@ def main():
     prop = args[args.index("--prop") + 1] if "--prop" in args else None
     only = args[args.index("--only") + 1] if "--only" in args else None
     ms = [m for m in load_mutants() if (not prop or m["prop"] == prop) and (not only or m["id"] == only)]
+    if "--twins" in args:
+        ms = [m for m in ms if m.get("expect") is None]
     if "--list" in args:
         for m in ms:
             print(m["prop"], m["id"], m.get("expect"))
